@@ -50,6 +50,8 @@ func New(config ...Config) fiber.Handler {
 			_ = c.Status(res.StatusCode)
 
 			for header, vals := range res.Headers {
+				// the recorded values replace what middleware in front of this one has set for this request
+				c.RequestCtx().Response.Header.Del(header)
 				for _, val := range vals {
 					c.RequestCtx().Response.Header.Add(header, val)
 				}
